@@ -63,6 +63,8 @@ type interpreter struct {
 	initRoot           *ssa.Function
 	skipExternal       *ssa.Function
 	timers             map[*value]bool
+	guardCells         map[*value]*value // memory cell -> lock that must be held to touch it (verifGuard)
+	guardMaps          map[*omap]*value  // map -> lock that must be held to touch it
 	syncMaps           map[*value]*omap
 	atomicValues       map[*value]value // sync/atomic.Value contents by address
 	wg                 map[*value]int
@@ -271,6 +273,9 @@ func visitInstr(fr *frame, instr ssa.Instruction) continuation {
 			if addr == nil {
 				panic(nilDeref())
 			}
+			if len(fr.i.guardCells) > 0 {
+				fr.checkGuardCell(addr, true)
+			}
 			store(mustDeref(instr.Addr.Type()), addr, fr.get(instr.Val))
 		case *symPtr:
 			fr.i.storeSymPtr(addr, fr.get(instr.Val))
@@ -375,6 +380,9 @@ func visitInstr(fr *frame, instr ssa.Instruction) continuation {
 		fr.env[instr] = makeMap(instr.Type().Underlying().(*types.Map).Key())
 
 	case *ssa.Range:
+		if m, ok := fr.get(instr.X).(*omap); ok {
+			fr.checkGuardMap(m, false)
+		}
 		fr.env[instr] = rangeIter(fr, fr.get(instr.X), instr.X.Type())
 
 	case *ssa.Next:
@@ -435,6 +443,7 @@ func visitInstr(fr *frame, instr ssa.Instruction) continuation {
 
 	case *ssa.MapUpdate:
 		m := fr.get(instr.Map).(*omap)
+		fr.checkGuardMap(m, true)
 		key := fr.get(instr.Key)
 		v := fr.get(instr.Value)
 		fr.mapInsert(m, key, copyVal(v), instr.Key.Type())
@@ -651,6 +660,7 @@ func (fr *frame) pickConcrete(v value, t types.Type) value {
 func (fr *frame) lookup(instr *ssa.Lookup, x, idx value) value {
 	switch x := x.(type) {
 	case *omap:
+		fr.checkGuardMap(x, false)
 		var v value
 		var ok bool
 		v, ok = fr.mapLookup(x, idx, instr.X.Type().Underlying().(*types.Map).Key())
@@ -975,6 +985,7 @@ func callBuiltin(caller *frame, callpos token.Pos, fn *ssa.Builtin, args []value
 
 	case "delete": // delete(map[K]value, K)
 		m := args[0].(*omap)
+		caller.checkGuardMap(m, true)
 		caller.mapDelete(m, args[1], m.keyTypeOr(fn))
 		return nil
 
@@ -1015,6 +1026,9 @@ func callBuiltin(caller *frame, callpos token.Pos, fn *ssa.Builtin, args []value
 		case []value:
 			return len(x)
 		case *omap:
+			if caller != nil {
+				caller.checkGuardMap(x, false)
+			}
 			return x.len()
 		case *channel:
 			if x == nil {
@@ -1621,4 +1635,61 @@ func visitInstrPure(fr *frame, in ssa.Instruction) (ok bool) {
 	}()
 	visitInstr(fr, in)
 	return true
+}
+
+// ---- lockset guards (verifGuard): a cell or map registered with a lock may be read only while the lock is
+// held (read or write) and written only while it is write-held. A violation is reported like a failed
+// verifAssert with a label naming the function that made the access.
+func (fr *frame) checkGuardCell(addr *value, write bool) {
+	lk, ok := fr.i.guardCells[addr]
+	if !ok {
+		return
+	}
+	fr.checkGuardHeld(lk, write)
+}
+
+func (fr *frame) checkGuardMap(m *omap, write bool) {
+	if len(fr.i.guardMaps) == 0 {
+		return
+	}
+	lk, ok := fr.i.guardMaps[m]
+	if !ok {
+		return
+	}
+	fr.checkGuardHeld(lk, write)
+}
+
+func (fr *frame) checkGuardHeld(lk *value, write bool) {
+	held := fr.i.locks[lk]
+	if (write && held == 1) || (!write && held > 0) {
+		return
+	}
+	what := "read"
+	if write {
+		what = "written"
+	}
+	fn := "?"
+	if fr.fn != nil {
+		fn = fr.fn.String()
+	}
+	fr.assertCond(false, "lockset: shared data "+what+" without its lock in "+fn)
+}
+
+// guardValue registers every cell reachable from cell p without following pointers.
+func (i *interpreter) guardValue(p *value, lk *value) {
+	i.guardCells[p] = lk
+	switch v := (*p).(type) {
+	case structure:
+		for k := range v {
+			i.guardValue(&v[k], lk)
+		}
+	case array:
+		for k := range v {
+			i.guardValue(&v[k], lk)
+		}
+	case *omap:
+		if v != nil {
+			i.guardMaps[v] = lk
+		}
+	}
 }
